@@ -567,6 +567,13 @@ class ProgGen:
                                [PArg(PType("enum", ge.qname), "c"), PArg(PType("prim", "int"), "n", ("3", 3))],
                                const=True))
         c.statics.append(PFunc("static", "Default", PType("enum", ce.qname), []))
+        if ce is not ge and self.f.get("enum_overloads", True):
+            # overloads told apart by the enumeration only
+            for en, nm in ((ce, "k"), (ge, "c")):
+                c.methods.append(PFunc("method", "mark", PType("prim", "int"), [PArg(PType("enum", en.qname), nm)]))
+                c.statics.append(PFunc("static", "Code", PType("prim", "int"), [PArg(PType("enum", en.qname), nm)]))
+            c.ctors.append(PFunc("ctor", c.name, None, [PArg(PType("enum", ge.qname), "colour"), PArg(PType("prim", "int"), "n")]))
+            c.ctors.append(PFunc("ctor", c.name, None, [PArg(PType("enum", ce.qname), "kind"), PArg(PType("prim", "int"), "n")]))
 
     def force_template(self):
         """a class template with an instantiation list; its instantiations are ordinary classes for the session"""
